@@ -579,6 +579,11 @@ def init_dataclass(
                     key = transformer.to_str(key)
                 _data[key] = val
             data = _data
+        else:
+            for key in data:
+                if not isinstance(key, str):
+                    # cls.__init__(inst, **data) below would raise a bare TypeError ("keywords must be strings")
+                    raise TypeError(f"invalid key: {repr(key)}, the keys of {cls} must be str")
     except Exception as e:
         raise exc.ParseError(type=cls, value=data, origin_exc=e) from e
 
